@@ -12,6 +12,7 @@ structure St where
   now : Int := epoch2000
   latest : Option Bool := none        -- the interceptor exists once a stream was bound
   streams : Streams := []
+  retired : List Nat := []            -- SSRCs with a stale handle (a binding that was unbound or replaced)
 
 def showSR (r : SR) : String :=
   s!"sr ssrc={r.ssrc} ntp={r.ntp} rtp={r.rtp} pc={r.packetCount} oc={r.octetCount}"
@@ -27,7 +28,11 @@ def step (st : St) (ts : List String) : St × List String :=
       if ssrc < M32 ∧ rate < M32 ∧ l < 2 then
         let lb := l == 1
         match st.latest with
-        | some l0 => if l0 == lb then ({ st with streams := store st.streams (new ssrc rate lb) }, []) else (st, ["bad-op"])
+        | some l0 =>
+          if l0 == lb then
+            ({ st with streams := store st.streams (new ssrc rate lb),
+                       retired := if bound st ssrc then ssrc :: st.retired else st.retired }, [])
+          else (st, ["bad-op"])
         | none =>
           -- the interceptor is created here; `skew`: its configured clock (SenderNow) is that much ahead of the
           -- harness clock that times the ops (and whose value the ticker channel delivers)
@@ -56,8 +61,16 @@ def step (st : St) (ts : List String) : St × List String :=
     | none => (st, ["bad-op"])
   | some "unbind" =>
     match getNat fs "ssrc" with
-    | some ssrc => if bound st ssrc then ({ st with streams := delete st.streams ssrc }, []) else (st, ["bad-op"])
+    | some ssrc =>
+      if bound st ssrc then ({ st with streams := delete st.streams ssrc, retired := ssrc :: st.retired }, []) else (st, ["bad-op"])
     | none => (st, ["bad-op"])
+  | some "stale" =>
+    -- a packet written through the handle of an earlier binding: it is no packet of any current stream, so no
+    -- stream's state changes; time passes
+    match getNat fs "ssrc", getNat fs "k", getNat fs "seq", getNat fs "ts", getNat fs "len", getNat fs "dt" with
+    | some ssrc, some _, some _, some _, some _, some dt =>
+      if st.retired.contains ssrc then ({ st with now := st.now + dt }, []) else (st, ["bad-op"])
+    | _, _, _, _, _, _ => (st, ["bad-op"])
   | _ => (st, ["bad-op"])
 
 def component : Component := { σ := St, init := {}, step := step }
@@ -73,6 +86,7 @@ structure St where
   nextTick : Int := epoch2000 + 1000000000
   first : Bool := true                -- no op seen yet (`cfg` allowed)
   streams : Streams := []
+  retired : List Nat := []            -- SSRCs with a stale reader (a binding that was unbound or replaced)
 
 def showRR (r : RR) : String :=
   s!"rr ssrc={r.ssrc} ext={r.ext} frac={r.fraction} lost={r.totalLost} jit={r.jitter} lsr={r.lsr} dlsr={r.delay}"
@@ -131,8 +145,10 @@ def step (st : St) (ts : List String) : St × List String :=
     match getNat fs "ssrc", getNat fs "rate", getNat fs "dt" with
     | some ssrc, some rate, some dt =>
       if ssrc < M32 ∧ rate < M32 then
+        let wasBound := bound st ssrc
         let (st, out) := adv st dt
-        ({ st with streams := store st.streams (new ssrc rate) }, out)
+        ({ st with streams := store st.streams (new ssrc rate),
+                   retired := if wasBound then ssrc :: st.retired else st.retired }, out)
       else (st, ["bad-op"])
     | _, _, _ => (st, ["bad-op"])
   | some "rtp" =>
@@ -175,9 +191,15 @@ def step (st : St) (ts : List String) : St × List String :=
     | some ssrc, some dt =>
       if bound st ssrc then
         let (st, out) := adv st dt
-        ({ st with streams := delete st.streams ssrc }, out)
+        ({ st with streams := delete st.streams ssrc, retired := ssrc :: st.retired }, out)
       else (st, ["bad-op"])
     | _, _ => (st, ["bad-op"])
+  | some "stale" =>
+    -- a packet read through the reader of an earlier binding: no packet of any current stream; time passes
+    match getNat fs "ssrc", getNat fs "k", getNat fs "seq", getNat fs "ts", getNat fs "dt" with
+    | some ssrc, some _, some _, some _, some dt =>
+      if st.retired.contains ssrc then adv st dt else (st, ["bad-op"])
+    | _, _, _, _, _ => (st, ["bad-op"])
   | _ => (st, ["bad-op"])
 
 def component : Component :=
